@@ -74,6 +74,8 @@ class Ctx:
         # defining constraints of sqrt variables (nonlinear); kept out of
         # the branch-feasibility solver unless the condition mentions them
         self.side = []
+        self.decided = {}
+        self._keep = []
 
     # ---- variables -------------------------------------------------------
     def real(self, name, nan=False, inf=False):
@@ -144,6 +146,11 @@ class Ctx:
             return True
         if z3.is_false(cond):
             return False
+        # structurally identical condition already decided on this path
+        # (z3 terms are hash-consed): no fork, no solver call
+        cid = cond.get_id()
+        if cid in self.decided:
+            return self.decided[cid]
         if self.pos < len(self.stack):
             ent = self.stack[self.pos]
             assert ent[0] == 'b', 'non-deterministic harness (decision kind)'
@@ -152,11 +159,13 @@ class Ctx:
             for c in self._side_for(cond):
                 self.solver.add(c)
             self.solver.add(cond if taken else z3.Not(cond))
+            self._remember(cond, taken)
             return taken
         if self.lazy:
             self.stack.append(['b', True, True])
             self.pos += 1
             self.solver.add(cond)
+            self._remember(cond, True)
             return True
         self.stats.branch_checks += 2
         side = self._side_for(cond)
@@ -174,7 +183,15 @@ class Ctx:
         self.stack.append(['b', taken, t_ok and f_ok])
         self.pos += 1
         self.solver.add(cond if taken else z3.Not(cond))
+        self._remember(cond, taken)
         return taken
+
+    def _remember(self, cond, taken):
+        self.decided[cond.get_id()] = taken
+        self._keep.append(cond)      # keep the AST alive (ids are reused)
+        n = z3.simplify(z3.Not(cond))
+        self.decided[n.get_id()] = not taken
+        self._keep.append(n)
 
     def _side_for(self, cond):
         """side constraints relevant to a term (transitively)."""
